@@ -416,18 +416,27 @@ def completeRedelegations : M Unit :=
 
 /-! ## unbonding.go -/
 
+/-- the buckets an end-of-block at the current block time pays out: completion STRICTLY before the block time
+    (the end-exclusive range scan `[prefix, key(blockTime))` of `IterateUndelegationsByCompletionTime`) -/
+def maturedBuckets (w : World) : List (UndelKey × List Undel) := w.undelQueue.filter fun (k, _) => k.1 < w.time
+
+/-- pay one entry to its delegator and delete its per-validator index key -/
+def payEntry (completion : Time) (e : Undel) : M Unit := do
+  sendCoins accModule e.del (Coins.single e.denom e.amount)
+  modifyW fun w => { w with undelIndex := w.undelIndex.erase (e.val, completion, e.denom, e.del) }
+
+/-- pay every entry of a bucket, then delete the bucket -/
+def payBucket (b : UndelKey × List Undel) : M Unit := do
+  forEachM (payEntry b.1.1) b.2
+  modifyW fun w => { w with undelQueue := AL.erase w.undelQueue b.1 }
+
 /-- `CompleteUnbondings` -/
 def completeUnbondings : M Unit := do
   let w ← getW
-  let matured := w.undelQueue.filter fun (k, _) => k.1 < w.time
-  forEachM (fun (b : UndelKey × List Undel) => do
-    forEachM (fun (e : Undel) => do
-      sendCoins accModule e.del (Coins.single e.denom e.amount)
-      modifyW fun w => { w with undelIndex := w.undelIndex.erase (e.val, b.1.1, e.denom, e.del) }) b.2
-    modifyW fun w => { w with undelQueue := AL.erase w.undelQueue b.1 }) matured
+  forEachM payBucket (maturedBuckets w)
   let w ← getW
   let bal := bankBalance w accModule w.staking.bondDenom
-  if bal ≠ 0 then burnCoin accModule w.staking.bondDenom bal
+  if bal ≠ 0 then burnCoin accModule w.staking.bondDenom bal else pure ()
 
 /-! ## slash.go -/
 
